@@ -72,6 +72,12 @@ func c11Pipeline(j c11Job, log func(stage int)) string {
 		fmt.Fprintf(&sb, "%s:%016x:%d\n", op, core.Hash64([]byte(out)), len(out))
 		log(2)
 	}
+	// formatting needs a private tree (it rewrites tokens): format + print a second parse
+	if len(pr.Errors) == 0 {
+		fr := fmtOnce(j.src, j.ver)
+		fmt.Fprintf(&sb, "format:%s:%016x:%d\n", fr.class, core.Hash64(fr.out), len(fr.out))
+		log(2)
+	}
 	if !bytes.Equal(src, j.src) {
 		sb.WriteString("SOURCE-MODIFIED\n")
 	}
@@ -334,7 +340,7 @@ func init() {
 			"the race detector only reports races on interleavings that actually occur; the stage-event log of the uninstrumented-for-race main run shows how diverse they were",
 			"pipeline results are compared through hashes of the printed text, two dumps, the visitor-method sequence and the sorted resolved names, plus the literal error list",
 		},
-		Plan:  func(p core.Params) int { return p.Pick(2500, 150000) },
+		Plan:  func(p core.Params) int { return p.Pick(1600, 150000) },
 		Twins: []string{"C11R"},
 		Run:   func(c *core.Ctx, idx int) { c11Batch(c, "C11", idx, true) },
 		MinNonTrivial: 50,
@@ -343,7 +349,7 @@ func init() {
 		ID:      "C11R",
 		Hidden:  true,
 		Rule:    "race-detector twin of C11",
-		Plan:    func(p core.Params) int { return p.Pick(700, 40000) },
+		Plan:    func(p core.Params) int { return p.Pick(500, 40000) },
 		Race:    func(p core.Params) bool { return true },
 		Env:     func(p core.Params) []string { return []string{"VERIF_YIELD=7"} },
 		CaseCPU: 120,
